@@ -183,23 +183,43 @@ def run(ctx: Ctx, tier: str) -> Result:
             res.fail(Finding("C17.FAN", pa.qname, c, pa.loc(c), "a failing processor aborts the remaining processors/metrics (no guard inside the processor loop)"))
 
     # ---------------- VALUE
+    # every assignment of the value is one of: the constant 1 (no expression given, or the fallback of the guard), or
+    # float(<the metric's expression evaluated in the frame>) exactly when an expression is given, inside a guard
+    mparam = P(pm, 1)
     inits = [n for n in t.nodes_in(pm, ast.Assign) if norm(n.targets[0]) == VAL]
-    dflt = [n for n in inits if isinstance(n.value, ast.Constant) and n.value.value == 1 and not paths.conditions(p, n, pm)]
-    conv = [n for n in inits if n not in dflt]
-    if len(dflt) == 1:
+    EXPR = "%s.expression" % mparam
+
+    def expr_conds(n):
+        out = []
+        for c, pol in paths.conditions(p, n, pm):
+            x = ctx.expand.expand(c.operand if isinstance(c, ast.UnaryOp) and isinstance(c.op, ast.Not) else c, pm)
+            neg = isinstance(c, ast.UnaryOp) and isinstance(c.op, ast.Not)
+            if x == [EXPR]:
+                out.append(("expr", pol != neg))
+            else:
+                out.append((norm(c), pol))
+        return out
+    ones = [n for n in inits if isinstance(n.value, ast.Constant) and n.value.value == 1]
+    conv = [n for n in inits if n not in ones]
+    in_handler = lambda n: any(isinstance(a, ast.ExceptHandler) for a in p.ancestors(n, stop=pm.node))   # noqa: E731
+    dflt = [n for n in ones if not in_handler(n) and expr_conds(n) in ([], [("expr", False)])]
+    if dflt:
         res.ok("C17.VALUE", {"default value": 1})
     else:
         res.fail(Finding("C17.VALUE", pm.qname, "<%s = 1>" % VAL, pm.loc(), "the metric value does not default to 1"))
-    mparam = P(pm, 1)
+    for n in ones:
+        if n in dflt or in_handler(n):
+            continue
+        res.fail(Finding("C17.VALUE", pm.qname, n, pm.loc(n), "the metric value is set to 1 when `%s`" % expr_conds(n)))
     for n in conv:
         txt = ctx.expand.expand(n.value, pm)
         guarded = g.catching_try(n.value, pm, "TypeError") is not None and g.catching_try(n.value, pm, "ValueError") is not None
-        under = any(pol and ctx.expand.expand(c, pm) == ["%s.expression" % mparam] for c, pol in paths.conditions(p, n, pm))
-        others_ = [c for c, pol in paths.conditions(p, n, pm) if not (pol and ctx.expand.expand(c, pm) == ["%s.expression" % mparam])]
+        ec = expr_conds(n)
+        others_ = [c for c in ec if c != ("expr", True)]
         if others_:
-            res.fail(Finding("C17.VALUE", pm.qname, others_[0], pm.loc(others_[0]), "the evaluated expression becomes the value only when `%s`: for other numeric results "
-                             "(Decimal, Fraction, numpy scalars, objects with __float__) the metric silently reports 1" % norm(others_[0])[:60]))
-        elif len(txt) == 1 and txt[0].startswith("float(") and "evaluate_expression(%s.expression)" % mparam in txt[0] and guarded and under:
+            res.fail(Finding("C17.VALUE", pm.qname, n, pm.loc(n), "the evaluated expression becomes the value only when `%s`: for other numeric results "
+                             "(Decimal, Fraction, numpy scalars, objects with __float__) the metric silently reports 1" % (others_[0][0] if others_[0][0] != "expr" else "not " + EXPR)[:60]))
+        elif len(txt) == 1 and txt[0].startswith("float(") and "evaluate_expression(%s.expression)" % mparam in txt[0] and guarded and ("expr", True) in ec:
             res.ok("C17.VALUE", {"value": txt[0]})
         else:
             res.fail(Finding("C17.VALUE", pm.qname, n, pm.loc(n), "the metric value is not float(<the metric's expression evaluated in the frame>) inside a guard, only when an expression is given: %s" % txt))
